@@ -33,7 +33,9 @@ theorem C02_stream_ends_with_finish_partial (nS nM : Nat) (es : List MEv) (e : E
   unfold encEv at h
   have h1 : ¬ ((⟨mds_FINISH, 0⟩ : MEv).type = mds_REST ∧ (⟨mds_FINISH, 0⟩ : MEv).arg ≠ 0) := by decide
   have h2 : ¬ ((⟨mds_FINISH, 0⟩ : MEv).type < mds_SLR ∧ (⟨mds_FINISH, 0⟩ : MEv).arg ≠ 0) := by decide
-  simp only [h1, h2, if_false] at h
+  have h0 : ¬ ((⟨mds_FINISH, 0⟩ : MEv).type = mds_LPB ∧ e.breaks.head?.getD 0 ≠ 0) := by
+    intro hh; exact absurd hh.1 (by decide)
+  simp only [h0, h1, h2, if_false] at h
   have h3 : encOther nS nM e mds_FINISH 0 = .ok { e with out := e.out ++ [mds_FINISH] } := by
     unfold encOther
     have a : ¬ (mds_FINISH = mds_SEGNO) := by decide
@@ -188,29 +190,36 @@ theorem C02_call_return_partial {seq : List Nat} {base mj : Nat} {e : Enc} {s : 
     ∃ s', Reach seq base mj s s' ∧ Frame s s' ∧ Good (afterPAT e arg) s' (T.reverse ++ O) :=
   ⟨encEv_pat 0 0 e arg, pat_good g arg hp ht hsub⟩
 
-/-! ### Outside the domain: two break markers in one loop (defect found while proving)
+/-! ### Outside the domain: two break markers in one loop (defect D23 found while proving; fixed)
 
-`Codec.Node` allows at most one break per loop.  That restriction is necessary: `convert_track` keeps
-ONE break address per open loop, so of several `LPB` events in the same loop only the LAST is
-back-patched, while the player (`Basic_Player::step_event`, Spec/Expand) leaves the loop at the
-FIRST break on the last pass.  Moreover every dropped `LPB` still overwrites `last_type`, which
-switches the length disambiguation off exactly as in D4. -/
+`Codec.Node` allows at most one break per loop.  Before repository fix 6595106 that restriction was
+necessary: `convert_track` kept ONE break address per open loop and overwrote it at every `LPB`
+event, so of several breaks in the same loop only the LAST was back-patched, while the player
+(`Basic_Player::step_event`, Spec/Expand) leaves the loop at the FIRST break on the last pass;
+`[c / d / e]2` was emitted as `fa a6 01 a8 fc 03 aa fb 02 ff` (plays `c d e c d`).  Every dropped
+`LPB` also overwrote `last_type`, which switched the length disambiguation off exactly as in D4.
+With the fix (`encEv` skips a break when the open loop already has one) the first break is the one
+that is emitted and the dropped ones leave no trace: -/
 
-/-- `[c / d / e]2`: the bytes play `c d e c d` (the player plays `c d e c`) -/
+/-- `[c / d / e]2` -/
 def exDouble : List MEv :=
   [⟨mds_LP, 0⟩, ⟨0xa6, 2⟩, ⟨mds_LPB, 0⟩, ⟨0xa8, 2⟩, ⟨mds_LPB, 0⟩, ⟨0xaa, 2⟩, ⟨mds_LPF, 2⟩, ⟨mds_FINISH, 0⟩]
 
-/-- `[c c / r4 / e]2`: the rest length `03` lands behind the length-less second `c` and is decoded as
-its length; the rest is lost on every pass -/
+/-- `[c c / r4 / e]2`: before the fix the rest length `03` landed behind the length-less second `c`
+and was decoded as its length -/
 def exDoubleAdj : List MEv :=
   [⟨mds_LP, 0⟩, ⟨0xa6, 2⟩, ⟨0xa6, 2⟩, ⟨mds_LPB, 0⟩, ⟨mds_REST, 4⟩, ⟨mds_LPB, 0⟩, ⟨0xaa, 2⟩, ⟨mds_LPF, 2⟩, ⟨mds_FINISH, 0⟩]
 
-theorem C02_double_break_counterexample :
-    (convertTrack 0 0 exDouble).toOption = some [0xfa, 0xa6, 0x01, 0xa8, 0xfc, 0x03, 0xaa, 0xfb, 2, 0xff] ∧
-    run [0xfa, 0xa6, 0x01, 0xa8, 0xfc, 0x03, 0xaa, 0xfb, 2, 0xff] 0 0 100 100 { pc := 0 } =
-      ([.on 36, .hold, .on 38, .hold, .on 40, .hold, .on 36, .hold, .on 38, .hold], .finished) ∧
+/-- the two witnesses of D23 on the repaired codec: the bytes play `c d e c` and `c c r4 e c c`,
+which is what the player plays -/
+theorem C02_double_break_fixed :
+    (convertTrack 0 0 exDouble).toOption = some [0xfa, 0xa6, 0x01, 0xfc, 0x04, 0xa8, 0xaa, 0xfb, 2, 0xff] ∧
+    run [0xfa, 0xa6, 0x01, 0xfc, 0x04, 0xa8, 0xaa, 0xfb, 2, 0xff] 0 0 100 100 { pc := 0 } =
+      ([.on 36, .hold, .on 38, .hold, .on 40, .hold, .on 36, .hold], .finished) ∧
     (convertTrack 0 0 exDoubleAdj).toOption =
-      some [0xfa, 0xa6, 0x01, 0xa6, 0x03, 0xfc, 0x03, 0xaa, 0xfb, 2, 0xff] := by
+      some [0xfa, 0xa6, 0x01, 0xa6, 0xfc, 0x04, 0x03, 0xaa, 0xfb, 2, 0xff] ∧
+    run [0xfa, 0xa6, 0x01, 0xa6, 0xfc, 0x04, 0x03, 0xaa, 0xfb, 2, 0xff] 0 0 100 100 { pc := 0 } =
+      ([.on 36, .hold, .on 36, .hold, .off, .off, .off, .off, .on 40, .hold, .on 36, .hold, .on 36, .hold], .finished) := by
   decide +kernel
 
 /-! ### non-vacuity -/
